@@ -1203,6 +1203,73 @@ pub fn growth_child(args: &Args) {
     })));
     let store = Arc::new(Store::new(&dir, vec![]).expect("open"));
     let mut rng = Rng::new(args.seed());
+    if mode == "g3" {
+        // writers only: several threads store concurrently (plain, ephemeral, replaceable events of many sizes) while
+        // the 2 KiB debug map grows every few events. Nobody holds a reference across a store, so nothing here
+        // touches the recorded finding: afterwards every event a successful store returned an offset for must read
+        // back, byte for byte, by that offset, and by id unless it is ephemeral or was replaced.
+        let nthreads = 6usize;
+        let per = nstores / nthreads;
+        let mut plans: Vec<Vec<Rc<Ev>>> = vec![];
+        for t in 0..nthreads {
+            let mut v = vec![];
+            for i in 0..per {
+                let kind: u16 = match (i + t) % 5 { 0 => 20001, 1 => 25000, 2 => 1, 3 => 7, _ => 1 };
+                let clen = [0usize, 30, 200, 700, 1500, 2600][(i * 7 + t) % 6];
+                let e = Ev::new(SemEvent { id: rng.arr32(), pubkey: author(t as u8), sig: [0x51; 64], kind, created_at: 1000 + i as u64, tags: vec![vec!["t".into(), "g3".into()]], content: "w".repeat(clen) }).unwrap();
+                v.push(e);
+            }
+            plans.push(v);
+        }
+        let results: Arc<Mutex<Vec<(u64, Vec<u8>, Id32, bool)>>> = Arc::new(Mutex::new(vec![]));
+        let mut hs = vec![];
+        for plan in plans.into_iter() {
+            let store = store.clone();
+            let results = results.clone();
+            let sendable: Vec<(Vec<u8>, Id32, bool)> = plan.iter().map(|e| (e.bytes.clone(), e.sem.id, is_ephemeral(e.sem.kind))).collect();
+            hs.push(std::thread::spawn(move || {
+                for (b, id, eph) in sendable {
+                    if let Ok(off) = store.store_event(&pocket_types::OwnedEvent(b.clone())) {
+                        results.lock().unwrap().push((off, b, id, eph));
+                    }
+                }
+            }));
+        }
+        for h in hs {
+            let _ = h.join();
+        }
+        let res = results.lock().unwrap();
+        jw(format!("S {} stores returned an offset\n", res.len()));
+        let mut seen_off = BTreeSet::new();
+        for (off, b, id, eph) in res.iter() {
+            if !seen_off.insert(*off) {
+                eprintln!("WRONG-BYTES g3: offset {off} returned twice");
+                std::process::exit(7);
+            }
+            match store.get_event_by_offset(*off) {
+                Ok(e) if e.as_bytes() == b.as_slice() => {}
+                Ok(_) => {
+                    eprintln!("WRONG-BYTES g3: offset {off} reads back different bytes");
+                    std::process::exit(7);
+                }
+                Err(e) => {
+                    eprintln!("WRONG-BYTES g3: offset {off} unreadable: {e}");
+                    std::process::exit(7);
+                }
+            }
+            if !*eph {
+                match store.get_event_by_id(Id::from_bytes(*id)) {
+                    Ok(Some(e)) if e.as_bytes() == b.as_slice() => {}
+                    other => {
+                        eprintln!("WRONG-BYTES g3: lookup by id after concurrent stores: {:?}", other.map(|o| o.map(|e| e.len())));
+                        std::process::exit(7);
+                    }
+                }
+            }
+        }
+        jw("DONE\n".to_string());
+        std::process::exit(0);
+    }
     let events: Vec<Rc<Ev>> = (0..nstores).map(|i| mk(&mut rng, (i % 3) as u8, 1, 1000 + i as u64, vec![vec!["t".into(), "g".into()]])).collect();
     let bytes: Arc<Vec<Vec<u8>>> = Arc::new(events.iter().map(|e| e.bytes.clone()).collect());
     let idsv: Arc<Vec<Id32>> = Arc::new(events.iter().map(|e| e.sem.id).collect());
@@ -1292,7 +1359,7 @@ pub fn growth_child(args: &Args) {
 pub fn leg_growth(rep: &mut Report, args: &Args) {
     let exe = std::env::current_exe().unwrap();
     let runs = if args.thorough() { 6 } else { 2 };
-    for mode in ["g1", "g2"] {
+    for mode in ["g1", "g2", "g3"] {
         for run in 0..runs {
             let dir = workdir().join(format!("c14{mode}_{run}"));
             let _ = std::fs::remove_dir_all(&dir);
@@ -1355,7 +1422,15 @@ pub fn leg_growth(rep: &mut Report, args: &Args) {
                 let _ = ch.wait();
                 classify_hang(rep, &text, &format!("growth scenario {mode} run {run} (stores journaled: {stores_done}, moves: {moves})"));
             } else if let Some(st) = status {
-                if let Some(sig) = st.signal() {
+                if mode == "g3" && (st.signal().is_some() || st.code() == Some(7)) {
+                    // no reader holds a reference in this scenario: nothing here is the recorded finding
+                    let errtxt = ch.stderr.take().map(|mut e| { let mut s = String::new(); let _ = std::io::Read::read_to_string(&mut e, &mut s); s }).unwrap_or_default();
+                    rep.finding(
+                        "concurrent-writers-damaged-the-map",
+                        &format!("growth scenario g3 run {run} (six writers, no readers): child ended with {st:?}: {}", errtxt.lines().last().unwrap_or("")),
+                        rp,
+                    );
+                } else if let Some(sig) = st.signal() {
                     let sigclass = if moves > 0 { "mapping-moved-under-concurrent-reader" } else { "reader-crash-without-move" };
                     rep.finding(
                         sigclass,
@@ -1400,6 +1475,7 @@ pub fn run(args: &Args) -> Report {
                 rep.require("growth_g1_runs", "growth scenario g1 did not run");
                 rep.require("growth_g2_runs", "growth scenario g2 did not run");
                 rep.require("growth_g1_growths_observed", "no growth of the map observed in g1");
+                rep.require("growth_g3_completed", "the writers-only growth scenario g3 did not complete");
             }
             "stress" => {
                 rep.require("stress_rounds", "no stress round completed");
